@@ -45,9 +45,9 @@ var c04ModSeqs = func() [][]byte {
 	return out
 }()
 
-const c04Contexts = 9
+const c04Contexts = 10
 
-var c04CtxNames = [...]string{"top-level", "struct-field", "slice-element", "behind-pointer", "struct-in-slice", "slice-in-struct", "struct-field-between-catching-siblings", "field-of-a-go-struct-used-as-input", "field-of-a-typed-map-record"}
+var c04CtxNames = [...]string{"top-level", "struct-field", "slice-element", "behind-pointer", "struct-in-slice", "slice-in-struct", "struct-field-between-catching-siblings", "field-of-a-go-struct-used-as-input", "field-of-a-typed-map-record", "field-of-an-item-of-a-typed-slice-default"}
 
 func (c04) Info(t core.Tier) core.Info {
 	return core.Info{
@@ -164,6 +164,9 @@ func c04Cell(k spec.Kind, seq []byte) *spec.Node {
 
 type missingKey struct{}
 
+// c04Skip: this input class cannot be placed in this context
+type c04Skip struct{}
+
 // c04Wrap puts the cell into its context and returns the root plus functions wrapping a cell input / a cell value.
 func c04Wrap(cell *spec.Node, ctx int) (root *spec.Node, wrapData func(any) any, wrapVal func(any) any) {
 	other := func() *spec.Node { return &spec.Node{Kind: spec.String, Witness: "o"} }
@@ -234,6 +237,42 @@ func c04Wrap(cell *spec.Node, ctx int) (root *spec.Node, wrapData func(any) any,
 			return rv.Interface()
 		}
 		wrapVal = func(v any) any { return map[string]any{"F": v, "Other": "o", "XUntouchedS": "sentinel-untouched"} }
+	}
+	if ctx == 9 {
+		// the cell is a field of the struct items of a slice whose Default is a typed slice; the slice itself is absent, so the
+		// cell's input is the field value inside the default (only values of the field's own Go type can sit there): the default is
+		// "tested like any other value", i.e. under the rules of the mode (in Parse 0, false and the zero time are present)
+		st := &spec.Node{Kind: spec.Struct, Fields: []spec.Field{{Key: "F", GoName: "F", Node: cell}, {Key: "Other", GoName: "Other", Node: other()}}}
+		sl := &spec.Node{Kind: spec.Slice, Elem: st}
+		root = &spec.Node{Kind: spec.Struct, ExtraFields: extra, Fields: []spec.Field{{Key: "l", GoName: "L", Node: sl}, {Key: "other", GoName: "Other", Node: other()}}}
+		root.Number()
+		setDefault := func(v any) bool {
+			if v == nil || reflect.TypeOf(v) != cell.GoType() {
+				if p, ok := v.(obs.PtrV); !ok || cell.Kind != spec.Ptr {
+					_ = p
+					return false
+				}
+			}
+			item := map[string]any{"F": obs.Norm(v), "Other": "o"}
+			if p, ok := v.(obs.PtrV); ok {
+				item["F"] = p
+			}
+			sl.Mods = []spec.Mod{{Op: spec.MDefault, Val: obs.Make(sl.GoType(), []any{item}).Interface()}}
+			return true
+		}
+		wrapData = func(v any) any {
+			if _, miss := v.(missingKey); miss || !setDefault(v) {
+				return c04Skip{}
+			}
+			return map[string]any{"other": "o"}
+		}
+		wrapVal = func(v any) any {
+			if !setDefault(v) {
+				return c04Skip{}
+			}
+			return map[string]any{"L": []any{}, "Other": "o", "XUntouchedS": "sentinel-untouched"}
+		}
+		return
 	}
 	if ctx == 8 {
 		// the record is a typed map (map[string]string / int / float64 / bool) whenever the input's own type allows it: a key
@@ -471,7 +510,11 @@ func (c04) RunCase(c *core.Ctx) {
 	}
 	for _, in := range c04ParseInputs(cell) {
 		for rep := 0; rep < reps; rep++ {
-			if !c04Check(c, root, ref.Parse, wrapData(in), nil, cellDesc) {
+			d := wrapData(in)
+			if _, skip := d.(c04Skip); skip {
+				continue
+			}
+			if !c04Check(c, root, ref.Parse, d, nil, cellDesc) {
 				return
 			}
 		}
@@ -480,7 +523,11 @@ func (c04) RunCase(c *core.Ctx) {
 	}
 	for _, v := range c04ValidateValues(cell) {
 		for rep := 0; rep < reps; rep++ {
-			if !c04Check(c, root, ref.Validate, nil, wrapVal(v), cellDesc) {
+			vv := wrapVal(v)
+			if _, skip := vv.(c04Skip); skip {
+				continue
+			}
+			if !c04Check(c, root, ref.Validate, nil, vv, cellDesc) {
 				return
 			}
 		}
